@@ -59,3 +59,52 @@ package synchronization
 //@   ensures[effective] result1 == nil ==> mergedAlphaConfiguration.EnsureValid(false) == nil && mergedBetaConfiguration.EnsureValid(false) == nil
 //@   at call connect#1 assert[effective] arg6 == mergedAlphaConfiguration
 //@   at call connect#2 assert[effective] arg6 == mergedBetaConfiguration
+
+// ------------------------------------------------------------------ C11
+// Safety halts. The change lists and entries produced by reconciliation are
+// plan objects: never written after construction.
+//@ immutable pkg/synchronization/core.Change pkg/synchronization/core.Entry
+
+//@ pred rootDeletion(ch) = ch.Path == "" && ch.Old != nil && ch.New == nil
+//@ pred rootTypeChange(ch) = ch.Path == "" && ch.Old != nil && ch.New != nil && ch.Old.Kind != ch.New.Kind
+//@ pred noRootDeletion(l) = forall k in 0..len(l) :: !rootDeletion(l[k])
+//@ pred noRootTypeChange(l) = forall k in 0..len(l) :: !rootTypeChange(l[k])
+//@ pred safePlan(a, b) = noRootDeletion(a) && noRootDeletion(b) && noRootTypeChange(a) && noRootTypeChange(b)
+//@ pred isDir(e) = e != nil && e.Kind == core.EntryKind_Directory
+//@ pred emptied(ancestor, alpha, beta) = isDir(ancestor) && isDir(alpha) && isDir(beta) && len(ancestor.Contents) >= 2 && ((len(alpha.Contents) == 0) != (len(beta.Contents) == 0))
+
+//@ func oneEndpointEmptiedRoot
+//@   ensures[def] result <==> emptied(ancestor, alpha, beta)
+//@   modifies
+
+//@ func containsRootDeletion
+//@   requires forall k in 0..len(changes) :: changes[k] != nil
+//@   ensures[def] result ==> exists k in 0..len(changes) :: rootDeletion(changes[k])
+//@   ensures[def] !result ==> noRootDeletion(changes)
+//@   modifies
+//@   loop 1 invariant rangeindex < len(changes)
+//@   loop 1 invariant forall k in 0..rangeindex+1 :: !rootDeletion(changes[k])
+
+//@ func containsRootTypeChange
+//@   requires forall k in 0..len(changes) :: changes[k] != nil
+//@   ensures[def] result ==> exists k in 0..len(changes) :: rootTypeChange(changes[k])
+//@   ensures[def] !result ==> noRootTypeChange(changes)
+//@   modifies
+//@   loop 1 invariant rangeindex < len(changes)
+//@   loop 1 invariant forall k in 0..rangeindex+1 :: !rootTypeChange(changes[k])
+
+// The synchronization cycle: staging and transitions are reachable only with
+// a plan that contains no root deletion and no root type change, computed from
+// snapshots for which the emptied-root check was negative; the transition
+// goroutines receive exactly the checked lists.
+//@ func (*controller).synchronize
+//@   at call Endpoint.Stage assert[guard] safePlan(αTransitions, βTransitions)
+//@   at call Endpoint.Stage assert[emptied] !emptied(ancestor, αContent, βContent)
+
+//@ func (*controller).synchronize$7
+//@   requires[guard] noRootDeletion(αTransitions) && noRootTypeChange(αTransitions)
+//@   at call Endpoint.Transition assert[guard] noRootDeletion(αTransitions) && noRootTypeChange(αTransitions) && arg2 == αTransitions
+
+//@ func (*controller).synchronize$8
+//@   requires[guard] noRootDeletion(βTransitions) && noRootTypeChange(βTransitions)
+//@   at call Endpoint.Transition assert[guard] noRootDeletion(βTransitions) && noRootTypeChange(βTransitions) && arg2 == βTransitions
